@@ -43,6 +43,13 @@ def generate(rng, tier, idx, real_set=False):
             ops.append({"op": "restart", "path": p, "slot": slot, "via": pick(rng, ["path", "handle", "loads"]), "offset": rng.randint(0, 200)})
         if rng.random() < 0.4:
             ops.append({"op": "redump_same", "slot": slot, "n": rng.randint(2, 3)})
+        if kit.machine == "M-XF" and rng.random() < 0.5:
+            # a per-tree document was produced from this object in between (a read-only operation)
+            from .. import gen_mf
+            for _ in range(rng.randint(1, 2)):
+                o = gen_mf.dump_for_tree_op(rng, sorted(set(a["variant"] for a in K["adds"])) or ["Server"], sorted(set(a["arch"] for a in K["adds"])) or ["x86_64"])
+                o["slot"] = slot
+                ops.append(o)
     # "...or on how often the object was dumped before": in half of the runs the builds are NOT all dumped before the
     # common mutation, so that slots with and without a dump history are compared afterwards
     first_cmp = rng.random() < 0.5
@@ -70,6 +77,10 @@ def generate(rng, tier, idx, real_set=False):
             ops.append({"op": "dump", "path": kit.path})
     elif r < 0.55:
         ops.append({"op": "fs_clobber", "path": kit.path, "how": pick(rng, ["longer", "garbage", "json"])})
+        ops.append({"op": "dump", "path": kit.path})
+    elif r < 0.75:
+        # the destination already holds the SAME content, re-saved by another tool in its own formatting
+        ops.append({"op": "fs_reorder_json", "path": kit.path, "seed": rng.randrange(1 << 30), "how": pick(rng, ["shuffle", "reverse"])})
         ops.append({"op": "dump", "path": kit.path})
     cfg = kit.cfg(rng)
     if real_set:
